@@ -11,15 +11,31 @@ INV_C08 = ["MaxDominates", "NewGetMax", "Proportional", "NeverMasked"]
 
 
 class SubtrajAdapter:
-    def __init__(self, n, h, prio):
+    def __init__(self, n, h, prio, mt=False):
         from rl_blox.blox import replay_buffer as rb
 
         self.prio = prio
         self.h = h
         cls = rb.SubtrajectoryReplayBufferPER if prio else rb.SubtrajectoryReplayBuffer
-        self.buf = cls(n, horizon=h)
+        base = cls(n, horizon=h)
         if prio:  # np.empty leaves arbitrary content in never-initialised priority slots
-            self.buf.priority.priority[:] = 7777.0
+            base.priority.priority[:] = 7777.0
+        # mt: the buffer under test is task 0 of a two-task MultiTaskReplayBuffer; before every addition to task 0
+        # a step of an unrelated episode stream is added to task 1 through the wrapper (task isolation, C02/C04)
+        self.mt = rb.MultiTaskReplayBuffer(base, 2) if mt else None
+        self._buf = base
+        self.foreign = 0
+
+    @property
+    def buf(self):
+        return self.mt.buffers[0] if self.mt is not None else self._buf
+
+    @buf.setter
+    def buf(self, x):
+        if self.mt is not None:
+            self.mt.buffers[0] = x
+        else:
+            self._buf = x
 
 
 def _check_window(batch, j, rows, h, inter):
@@ -52,7 +68,18 @@ def step(ad: SubtrajAdapter, op, args, exp, pre, post):
     buf = ad.buf
     if op == "Add":
         end, ep, t = args
-        buf.add_sample(**bufkit.st_values(ep, t, end))
+        if ad.mt is not None:
+            k = ad.foreign
+            ad.foreign += 1
+            ad.mt.select_task(1)
+            ad.mt.add_sample(**bufkit.st_values(500 + k // 3, k % 3, "term" if k % 3 == 2 else "cont"))
+            ad.mt.select_task(0)
+            ad.mt.add_sample(**bufkit.st_values(ep, t, end))
+            want = ad.foreign + ad.foreign // 3
+            if len(ad.mt.buffers[1]) != min(want, ad.mt.buffers[1].buffer_size):
+                raise Mismatch(f"task 1 holds {len(ad.mt.buffers[1])} rows after {ad.foreign} additions of its own (expected {min(want, ad.mt.buffers[1].buffer_size)})", code="other_task_length")
+        else:
+            buf.add_sample(**bufkit.st_values(ep, t, end))
     elif op == "Sample":
         s, h, inter = args["s"], args["h"], args["inter"]
         rng = bufkit.StubRng()
@@ -62,6 +89,13 @@ def step(ad: SubtrajAdapter, op, args, exp, pre, post):
         if (c[1], c[2]) != (0, args["ones"]):
             raise Mismatch(f"start drawn from [{c[1]},{c[2]}) but {args['ones']} starts are admissible")
         _check_window(batch, 0, exp["rows"], h, inter)
+    elif op == "SampleNone":
+        try:
+            out = buf.sample_batch(1, 1, True, np.random.default_rng(0))
+        except Exception:
+            out = None
+        if out is not None:
+            raise Mismatch("a window was sampled although no admissible start exists (mask all zero)", code="sampled_without_admissible_start")
     elif op == "SamplePrio":
         ticks, h, inter, total = args["ticks"], args["h"], args["inter"], args["total"]
         rng = bufkit.StubRng()
@@ -126,7 +160,7 @@ def merge(rep, out):
     return (out["edges"], out["nontrivial"]) if out["edges"] else None
 
 
-def config_job(n, h, m, prio, prio_vals, max_batch, invs, label, real_rng, seed, workers=4):
+def config_job(n, h, m, prio, prio_vals, max_batch, invs, label, real_rng, seed, workers=4, mt=False):
     """One Subtraj configuration: TLC property run, generation run, transition-coverage replay."""
     out = {"tlc": [], "violations": [], "edges": 0, "nontrivial": 0, "sample": None}
 
@@ -139,13 +173,13 @@ def config_job(n, h, m, prio, prio_vals, max_batch, invs, label, real_rng, seed,
     rep.violation = lambda key, what, replay=None: out["violations"].append((key, what, replay))
     rep.sample = lambda s: out.__setitem__("sample", s)
     rep.traces = 0
-    res = _run_config(rep, n, h, m, prio, prio_vals, max_batch, invs, label, real_rng, workers)
+    res = _run_config(rep, n, h, m, prio, prio_vals, max_batch, invs, label, real_rng, workers, mt)
     if res:
         out["edges"], out["nontrivial"] = res
     return out
 
 
-def _run_config(rep, n, h, m, prio, prio_vals=(1,), max_batch=1, invs=(), label="", real_rng=True, workers=16):
+def _run_config(rep, n, h, m, prio, prio_vals=(1,), max_batch=1, invs=(), label="", real_rng=True, workers=16, mt=False):
     c = dict(N=n, H=h, MaxAdds=m, PRIO=prio, PrioVals=set(prio_vals), MaxBatch=max_batch, EMIT=False)
     r = tlc.run("Subtraj", tlc.cfg_text(constants=c, invariants=list(invs), properties=["EnvTermSticky"]), coverage=True, tag=f"st{n}{h}", workers=workers)
     rep.add_tlc(r, f"Subtraj N={n} H={h} adds<={m} prio={prio} {label}")
@@ -163,14 +197,14 @@ def _run_config(rep, n, h, m, prio, prio_vals=(1,), max_batch=1, invs=(), label=
         if real_rng and op == "Add" and post is not None:
             real_rng_windows(o, post, rep.seed)
 
-    res = graph.cover(G, root, lambda: SubtrajAdapter(n, h, prio), stp, project)
+    res = graph.cover(G, root, lambda: SubtrajAdapter(n, h, prio, mt), stp, project)
     rep.traces += res["edges_tested"]
-    cls = "SubtrajectoryReplayBufferPER" if prio else "SubtrajectoryReplayBuffer"
+    cls = ("SubtrajectoryReplayBufferPER" if prio else "SubtrajectoryReplayBuffer") + ("[task 0 of MultiTaskReplayBuffer]" if mt else "")
     for v in res["violations"]:
         rep.violation(
             f"{cls}:{v['path'][-1]['op']}:{v['code']}",
             f"{cls} (N={n}, H={h}): {v['what']}",
-            {"class": cls, "N": n, "H": h, "prio": prio, "path": v["path"], "detail": v["detail"]},
+            {"class": cls, "N": n, "H": h, "prio": prio, "mt": mt, "path": v["path"], "detail": v["detail"]},
         )
     nontrivial = sum(1 for k, es in G.out.items() for e in es if G.state[k]["len"] > 0)
     rep.sample({"N": n, "H": h, "transition": g.emitted[len(g.emitted) // 2]})
@@ -192,7 +226,7 @@ def replay(path, pid):
     import json
 
     d = json.load(open(path))["replay"]
-    ad = SubtrajAdapter(d["N"], d["H"], d["prio"])
+    ad = SubtrajAdapter(d["N"], d["H"], d["prio"], d.get("mt", False))
     try:
         for st in d["path"]:
             step(ad, st["op"], st["args"], st.get("exp"), None, None)
